@@ -80,11 +80,42 @@ def replay_family(ctx, fam, behs, env=None, race=False, exhaustive_depth=None, b
             if s2 is None:
                 n_bad += 1
                 last = out2
+        seq = None
         if n_bad < 2:
-            raise vlib.Broken("driver died on behaviour %d but not when it is replayed alone (rc=%s): %s" % (
-                start + idx, rc, out[-1500:]))
+            # not reproducible alone: the behaviours of one process, each closed by a Reset of every builder, form ONE
+            # legal history of the API; if the crash reproduces on that history (twice) it is a violation of it
+            prefix = behs[start:start + idx + 1]
+            n_seq = 0
+            for _ in range(2):
+                rc3, out3, mm3, s3 = _run(ctx, binary, fam, prefix, env)
+                if s3 is None and _progress(ctx, fam) == idx:
+                    n_seq += 1
+                    last = out3
+            if n_seq < 2:
+                # the point of death moves (collector timing): does the process die on EVERY run of this batch?
+                deaths = []
+                for _ in range(3):
+                    rc4, out4, mm4, s4 = _run(ctx, binary, fam, part, env)
+                    if s4 is None:
+                        deaths.append(_progress(ctx, fam))
+                        last = out4
+                if len(deaths) < 3:
+                    raise vlib.Broken("driver died on behaviour %d but neither alone nor on the same sequence again (rc=%s): %s" % (
+                        start + idx, rc, out[-1500:]))
+                ro = {"family": fam, "kind": "crash-every-run", "env": env or {}, "deaths_at": deaths, "tail": last[-1500:], "key": "crash",
+                      "op": "crash", "world": "?", "sequence": part[: max(deaths) + 1][-40:], "sequence_len": max(deaths) + 1}
+                if classify:
+                    classify(ro)
+                ctx.violation("the driver process dies on every run of this batch of legal histories (4 of 4 runs, at behaviours %s - the point "
+                              "moves with collector timing): %s" % ([start + idx] + deaths, last[-400:]), ro)
+                break
+            seq = prefix
         ro = {"family": fam, "kind": "crash", "env": env or {}, "behaviour": bad, "tail": last[-1500:], "key": "crash",
               "op": "crash", "world": "?", "ops": " ".join(s["op"] for s in bad)}
+        if seq is not None:
+            ro["kind"] = "crash-after-sequence"
+            ro["sequence"] = seq[-40:]
+            ro["sequence_len"] = len(seq)
         if classify:
             classify(ro)
         ctx.violation("driver crashed or hung replaying one behaviour (reproduced twice alone): %s ... %s" % (
@@ -118,11 +149,21 @@ def replay_family(ctx, fam, behs, env=None, race=False, exhaustive_depth=None, b
         beh = behs[mm["beh"]]
         rc2, out2, mm2, s2 = _run(ctx, binary, fam, [beh], env)
         rep = [m for m in mm2 if m["world"] == mm["world"] and m["step"] <= mm["step"]]
+        seq = None
         if not rep:
-            raise vlib.Broken("mismatch did not reproduce in isolation: %s" % json.dumps(mm))
+            # see above: the sequence of behaviours up to this one is itself a legal history
+            prefix = behs[: mm["beh"] + 1]
+            rc3, out3, mm3, s3 = _run(ctx, binary, fam, prefix, env)
+            if not [m for m in mm3 if m["beh"] == mm["beh"] and m["world"] == mm["world"]]:
+                raise vlib.Broken("mismatch reproduced neither in isolation nor on the same sequence: %s" % json.dumps(mm))
+            seq = prefix
         ro = {"family": fam, "kind": "mismatch", "env": env or {}, "world": mm["world"], "step": mm["step"], "op": mm["op"],
               "key": mm["key"], "want": mm["want"], "got": mm["got"], "behaviour": beh[: mm["step"] + 1],
               "ops": " ".join(s["op"] for s in beh[: mm["step"] + 1])}
+        if seq is not None:
+            ro["kind"] = "mismatch-after-sequence"
+            ro["sequence"] = seq[-40:]
+            ro["sequence_len"] = len(seq)
         if classify:
             classify(ro)
         ctx.violation("after %s (step %d of %s) on %s: %s required=%r real=%r" % (
